@@ -210,6 +210,7 @@ func dlReplay(bfile, tfile string, port int) {
 	x := newDLWorld(port, w)
 	bg := context.Background()
 	st := &dlStats{}
+	batchMisses := 0
 	for bi, b := range behaviours {
 		var free atomic.Bool
 		t := &dlTarget{w: w, enter: make(chan *dlDelivery, 64), free: &free}
@@ -290,7 +291,7 @@ func dlReplay(bfile, tfile string, port int) {
 				}
 				x.waitDeadletterIdle()
 				x.drain()
-				if len(x.seen) == before {
+				if o.Rcv == "T" && running && len(x.seen) == before {
 					nenq++
 				}
 				settle()
@@ -307,12 +308,19 @@ func dlReplay(bfile, tfile string, port int) {
 				if err := actor.VerifCoalescedFailure(x.sys, "127.0.0.1:"+strconv.Itoa(x.port+1), x.remoteAddr("remotesender"), rcvs, pls, errors.New("endpoint unreachable")); err != nil {
 					fatal("coalesced failure shim:", err)
 				}
-				// the fan-out goroutine works asynchronously: wait for the n publications (bounded)
-				waitFor(3*time.Second*slow, func() bool {
+				// the fan-out goroutine works asynchronously: wait for the n publications (bounded; once a few batches
+				// have come up short the wait is cut down so that a broken fan-out does not stall the whole replay)
+				bw := time.Second * slow
+				if batchMisses > 3 {
+					bw = 20 * time.Millisecond
+				}
+				if !waitFor(bw, func() bool {
 					x.waitDeadletterIdle()
 					x.drain()
 					return len(x.seen) >= before+o.N && actor.VerifCoalescedFailureBacklog(x.sys) == 0
-				})
+				}) {
+					batchMisses++
+				}
 			case "Finish":
 				if cur == nil {
 					st.Drift++
@@ -402,6 +410,7 @@ func dlStress(histories int, seed int64, tfile string, port int) {
 	bg := context.Background()
 	rng := rand.New(rand.NewSource(seed))
 	st := &dlStats{}
+	lostWaits := 0
 	for h := 0; h < histories; h++ {
 		var free atomic.Bool
 		free.Store(true)
@@ -466,16 +475,26 @@ func dlStress(histories int, seed int64, tfile string, port int) {
 			}()
 		}
 		wg.Wait()
-		// quiescence, logically: every accepted message has shown up as handled or as a dead letter (bounded wait:
-		// if one is lost the watchdog expires and the monitor reports it), and everything is idle
-		quiet := waitFor(x.wd(), func() bool {
+		// quiescence, logically: every accepted message has shown up as handled or as a dead letter. The wait is
+		// bounded; if it expires while everything is idle a message is really lost and the monitor reports it
+		// (after a few such histories the wait is cut down so that a broken build does not stall the run).
+		lw := 3 * time.Second * slow
+		if lostWaits > 2 {
+			lw = 100 * time.Millisecond
+		}
+		idle := func() bool {
+			return actor.VerifIdleOf(x.pid) && actor.VerifIdleOf(x.dl) && actor.VerifCoalescedFailureBacklog(x.sys) == 0
+		}
+		if !waitFor(lw, func() bool {
 			x.drain()
-			return int64(len(x.seen)+len(t.handledIDs())) >= naccepted.Load() && actor.VerifIdleOf(x.pid) && actor.VerifIdleOf(x.dl) &&
-				actor.VerifCoalescedFailureBacklog(x.sys) == 0
-		})
+			return int64(len(x.seen)+len(t.handledIDs())) >= naccepted.Load() && idle()
+		}) {
+			lostWaits++
+		}
 		time.Sleep(time.Millisecond) // a duplicate publication would follow shortly
 		x.waitDeadletterIdle()
 		x.drain()
+		quiet := idle()
 		total := x.sys.Metric(bg).DeadlettersCount() - x.base
 		pert := int64(-1)
 		if m := x.pid.Metric(bg); m != nil {
